@@ -6,15 +6,16 @@ from vlib import VERIF
 BE_DEF = ['-U__BYTE_ORDER__', '-D__BYTE_ORDER__=__ORDER_BIG_ENDIAN__']
 
 
-def build_bomon(work, cc='gcc', opt='-O2'):
+def build_bomon(work, cc='gcc', opt='-O2', hosted=False):
     inc = ['-I' + os.path.join(vlib.REPO, 'include'), '-I' + os.path.join(VERIF, 'mon')]
-    name = 'bomon_%s%s' % (cc, opt.replace('-', '_'))
+    name = 'bomon_%s%s%s' % (cc, opt.replace('-', '_'), '_hosted' if hosted else '')
+    hdef = ['-DVP_HOSTED_FIRST'] if hosted else []
     d = work.path('obj_' + name)
     os.makedirs(d, exist_ok=True)
     wrap = os.path.join(VERIF, 'mon', 'bo_wrap.c')
     steps = [
-        [cc, '-std=gnu99', '-w', opt, '-g'] + inc + ['-DPFX=le_', '-c', wrap, '-o', d + '/le.o'],
-        [cc, '-std=gnu99', '-w', opt, '-g'] + inc + BE_DEF + ['-DPFX=be_', '-c', wrap, '-o', d + '/be.o'],
+        [cc, '-std=gnu99', '-w', opt, '-g'] + inc + hdef + ['-DPFX=le_', '-c', wrap, '-o', d + '/le.o'],
+        [cc, '-std=gnu99', '-w', opt, '-g'] + inc + hdef + BE_DEF + ['-DPFX=be_', '-c', wrap, '-o', d + '/be.o'],
         [cc, '-std=gnu99', '-w', opt, '-g'] + inc + ['-c', os.path.join(VERIF, 'mon', 'bomon.c'), '-o', d + '/bomon.o'],
         [cc, '-std=gnu99', '-w', opt, '-g'] + inc + ['-c', os.path.join(VERIF, 'mon', 'vpcore.c'), '-o', d + '/vpcore.o'],
         [cc, '-std=gnu99', '-w', opt, '-g'] + inc + ['-c', os.path.join(VERIF, 'mon', 'platform_native.c'), '-o', d + '/plat.o'],
@@ -35,8 +36,9 @@ def c13(tier, seed):
     work = vlib.Work('C13')
     try:
         obs = vlib.Obs()
-        variants = [('gcc', '-O2'), ('gcc', '-O0'), ('clang', '-O2')] + ([('clang', '-O0'), ('gcc', '-O3')] if tier == 'thorough' else [])
-        bins = vlib.run_parallel(lambda v: build_bomon(work, v[0], v[1]), variants, workers=5)
+        variants = [('gcc', '-O2', False), ('gcc', '-O0', False), ('clang', '-O2', False), ('gcc', '-O2', True), ('clang', '-O1', True)] + \
+            ([('clang', '-O0', False), ('gcc', '-O3', False), ('gcc', '-O0', True)] if tier == 'thorough' else [])
+        bins = vlib.run_parallel(lambda v: build_bomon(work, v[0], v[1], v[2]), variants, workers=8)
         jobs = []
         for b in bins:
             jobs.append((b, dict(VP_WIDTH=16)))
@@ -56,8 +58,10 @@ def c13(tier, seed):
                 jobs.append((b, dict(VP_WIDTH=64, VP_RANDOM=10000000 if b == main else 1000000)))
         vlib.run_parallel(lambda j: vlib.run_monitor(obs, j[0], dict(j[1], VP_SEED=seed, VP_COUNTNT=1 if j[0] == main else 0), tag='bo', sanitizer_env=False, timeout=3000), jobs)
         cov = dict(distinct_nontrivial=int(obs.stats.get('nontrivial', 0)), exhaustive=(tier == 'thorough'),
-                   build_variants=['%s %s' % v for v in variants],
-                   rule='12 helpers + 3 swap primitives of both compile-time branches (native, and __BYTE_ORDER__ forced to big-endian): '
+                   build_variants=['%s %s%s' % (v[0], v[1], ' libc-headers-first' if v[2] else '') for v in variants],
+                   rule='12 helpers + 3 swap primitives of both compile-time branches (native, and __BYTE_ORDER__ forced to big-endian), built at several '
+                        'optimisation levels, also with libc headers (<stdlib.h>, <endian.h>, <arpa/inet.h>) included before Byteorder.h, and called '
+                        'with literal constants as well as run-time values: '
                         '16-bit exhaustive in every build; 32-bit %s; 64-bit all 8! lane permutations of distinct byte markers, walking '
                         'ones/zeros, byte-lane saturations and random values.  Native set: memory image of CpuToBeN/CpuToLeN compared with '
                         'the big/little-endian byte sequence of x, to-host helpers invert, swaps reverse bytes and are involutions; '
